@@ -1,4 +1,50 @@
 import SfxModel.TextSpec
+import SfxModel.FromStr
+/-
+  C08 — Parsing returns the correctly rounded value of the literal, or a precise error.
+
+  FULL statement: `C08_statement` below.  STATUS: the executable model `FromStr.fromStr` (539 lines, function by function after
+  `from_str.rs`) is tied to the code by the correspondence check (0 disagreements on 3.1 M requests incl. all 507 layouts, both
+  profiles) and every implementation answer is judged against the exact specification `TextSpec.parseExact` (the literal's exact
+  rational value rounded half-even to the grid) by the driver on every run.  PROVED so far: the specification-side lemmas below;
+  the model-equals-specification theorems (`parse_bounds_spec`, digit folds, power-of-two fractions, decimal fast/slow path) are in
+  progress (see MANIFEST level text).
+-/
 namespace Sfx.C08
-theorem placeholder : True := trivial
+open Sfx.TextSpec
+
+/-- FULL statement: for every byte string, radix in {2,8,10,16} and valid layout, the modelled parser returns — without panic and
+without a debug-only check — the correctly rounded value with the exact overflow flag, or an error for a malformed literal -/
+def C08_statement : Prop :=
+  ∀ L : Layout, L.valid → ∀ radix : Nat, (radix = 2 ∨ radix = 8 ∨ radix = 10 ∨ radix = 16) → ∀ bytes : List Nat, (∀ b ∈ bytes, b < 256) →
+    ∃ r, FromStr.fromStr L.signed L.n bytes radix L.intBits L.f = some (.ok r false) ∧
+      match parseExact radix L.f bytes with
+      | some E => r = .ok (L.wrap E, !decide (inRange L E))
+      | none => ∃ k, r = .error k ∧ k ≠ 3
+
+/-- the rounding used by the specification is round-half-even: the result is within half a unit, and on a tie it is even -/
+theorem rneDiv_spec (num den : Nat) (hd : 0 < den) :
+    let q := rneDiv num den
+    (2 * q * den ≤ 2 * num + den ∧ 2 * num ≤ 2 * q * den + den) ∧ (2 * num + den = 2 * q * den ∨ 2 * num = 2 * q * den + den → q % 2 = 0) := by
+  intro q
+  have h1 := Nat.div_add_mod num den
+  have h2 := Nat.mod_lt num hd
+  simp only [q, rneDiv]
+  generalize hq : num / den = k at *
+  generalize hr : num % den = r at *
+  have hk : den * k + r = num := h1
+  have e1 : 2 * k * den = 2 * (den * k) := by rw [Nat.mul_assoc, Nat.mul_comm k den]
+  have e2 : 2 * (k + 1) * den = 2 * (den * k) + 2 * den := by
+    rw [Nat.mul_assoc, Nat.add_mul, Nat.mul_comm k den]; omega
+  split
+  · rw [e1]; omega
+  · split
+    · rw [e2]; omega
+    · split
+      · rw [e1]; omega
+      · rw [e2]; omega
+
+/-- non-vacuity of the grammar: "-12.5" is a literal with value -125/10; "1.2.3" and "" are malformed -/
+example : literal 10 [45, 49, 50, 46, 53] = some (true, 125, 1) ∧ literal 10 [49, 46, 50, 46, 51] = none ∧ literal 10 [] = none := by decide
+
 end Sfx.C08
